@@ -266,6 +266,8 @@ def as_sequence(eng, v):
         r = eng.find_method(v.cls, "__iter__")
         if r is not None and r[0] == "func" and eng.func_from_py(r[1], r[2]) is not None:
             return as_sequence(eng, eng.call(eng.getattr_(v, "__iter__"), [], {}))
+    if hasattr(v, "__pyvc_iter_seq__"):  # extension values: (length, getter) of their own enumeration
+        return v.__pyvc_iter_seq__(eng)
     raise Unsupported(f"symbolic iteration over {type(v).__name__}")
 
 
@@ -516,6 +518,8 @@ def check_frame(eng, v):
 
 # --------------------------------------------------------------- contains
 def contains(eng, container, item):
+    if hasattr(container, "__pyvc_contains__"):  # extension values (pyvc/ext_*.py) bring their own membership test
+        return container.__pyvc_contains__(eng, item)
     if isinstance(container, PDict):
         if container.items is not None:
             if isinstance(item, Sym):
